@@ -62,15 +62,24 @@ Theorem constants_remap_total : forall f max m,
 Proof. exact ConstantsProofs.constants_remap_total. Qed.
 Print Assumptions constants_remap_total.
 
-(* 4. completion, up to the engine's step budget: on a def_assigned function the analysis returns a result
-      or stops on FixedPointMaxSteps -- never FixedPointOrdering, never a panic, never another error.
-      `_partial`: the budget itself is not bounded here (C09's termination bound needs a height bound over
-      ALL states, which Constants as a type does not have; on the maps that arise the height is 2 per scalar). *)
-Theorem constants_completes_partial : forall f max,
+(* 4. completion: on a def_assigned function the analysis returns a result whenever the engine's step
+      budget covers the C09 bound  1 + out_degree * |locations| * (3*|scalars| + 1)  (height per location:
+      absent < Bottom < Constant < Top for each scalar); with the hard-coded budget 250000 this covers every
+      function with  out_degree * |locations| * (3*|scalars| + 1) <= 250000. *)
+Theorem constants_completes : forall f max,
+  cfg_inv (f_cfg f) = true -> c13_wf f = true -> def_assigned f = true ->
+  (1 + out_degree f * (length (locations f) * S (3 * length (all_scalars f))) <= S max)%nat ->
+  exists r, constants_max max f = Ok r.
+Proof. exact ConstantsProofs.constants_completes. Qed.
+Print Assumptions constants_completes.
+
+(* 5. and for ANY budget the only possible failure on that class is FixedPointMaxSteps: never
+      FixedPointOrdering, never a panic, never another error *)
+Theorem constants_only_budget_error : forall f max,
   cfg_inv (f_cfg f) = true -> c13_wf f = true -> def_assigned f = true ->
   (exists r, constants_max max f = Ok r) \/ constants_max max f = Err EMaxSteps.
 Proof. exact ConstantsProofs.constants_completes_partial. Qed.
-Print Assumptions constants_completes_partial.
+Print Assumptions constants_only_budget_error.
 
 (* the known finding kf:not-definitely-assigned:  if a == 0 { b = 5 } else { nop x4 }; c = b + 1; nop
    scalars: a = 0, b = 1, c = 2 (32 bits) *)
